@@ -77,14 +77,15 @@ def alphabet(tier):
         A.append(defmsg("D1", "V1", K, ("a",), "Busy", None, None, 1))
     A.append(defmsg("D1", "V2", "Text", ("a",)))
     A.append(defmsg("D2", "V1", "Text", ("a", "b"), "Idle"))
+    # a redefinition that ADDS an element (and reorders): the client must learn the new member
+    A.append(defmsg("D1", "V1", "Text", ("c", "a", "b"), "Ok", None, "G3"))
+    A.append(setmsg("D1", "V1", "Text", (("c", "t2"),), "Idle"))
     if tier == "thorough":
         A.append(defmsg("D2", "V2", "Switch", ("a", "b"), "Ok"))
         A.append(defmsg("D1", "V2", "Number", ("a", "b"), "Alert", "L2", "G2"))
         # a third element, reordered and overlapping element sets (redefinition with other members)
         A.append(defmsg("D1", "V1", "Text", ("b", "c"), "Idle", "L3", None, 1))
-        A.append(defmsg("D1", "V1", "Text", ("c", "a", "b"), "Ok", None, "G3"))
         A.append(defmsg("D1", "V1", "Switch", ("c", "b"), "Alert"))
-        A.append(setmsg("D1", "V1", "Text", (("c", "t2"),), "Idle"))
         A.append(setmsg("D1", "V1", "Text", (("c", "t1"), ("a", "t2")), "Alert"))
         A.append(setmsg("D1", "V1", "Switch", (("c", "On"),)))
         A.append(setmsg("D2", "V1", "Text", (("b", "t1"),), "Ok"))
